@@ -202,6 +202,39 @@ def _object_mutation(prefix):
         report(f"{prefix}:history:stale-after-attribute-update:{FIELDS5[k]}", f"after h.{FIELDS5[k]} = {new[k]!r} the object gives {got}, a fresh object with the same numbers {want}",
                {"par": par, "pivot": p0, "new_pivot": p1, "attribute": FIELDS5[k], "value": new[k]})
 
+_AFA = [0]
+def _array_field_assignment(prefix):
+    """ak.Array supports in-place field assignment (`h["kappa"] = h.kappa / 1.25`, e.g. a momentum-scale correction): a helix array that
+    was already used (radius / move / closeness) and then gets a column replaced behaves like a new array built from the new numbers"""
+    global n_eval
+    m = rng.choice([2, 3, 5]); P = [gen_helix() for _ in range(m)]; p0, p1 = gen_pivot(), gen_pivot()
+    E = [gen_error() for _ in range(m)] if rng.random() < 0.6 else None
+    lay = rng.choice(["flat", "ragged"]) if m >= 3 else "flat"
+    ha = awk(P, [p0] * m, E, lay); _ = ha.radius; _ = ha.change_pivot(*p1); _ = ha.isclose(ha); _ = (ha.momentum, ha.position, ha.charge)
+    _AFA[0] += 1; k = (1 + _AFA[0]) % 5      # kappa first, then every column in turn
+    f = FIELDS5[k]; bump(f"history:array-field-assignment:{f}:{lay}")
+    fac = {0: 1.0, 1: 1.0, 2: rng.choice([0.8, -1.0, 1.25]), 3: 1.0, 4: 1.0}[k]; add = {0: 0.37, 1: 0.0, 2: 0.0, 3: -2.5, 4: 0.3}[k]
+    if k == 1: ha[f] = (ha[f] + 1.1) % TWO_PI
+    else: ha[f] = ha[f] * fac + add
+    n_eval += 1
+    newP = [list(pp) for pp in P]
+    for pp in newP: pp[k] = (pp[k] + 1.1) % TWO_PI if k == 1 else pp[k] * fac + add
+    fresh = awk(newP, [p0] * m, E, lay)
+    inp = {"tracks": P, "pivot": p0, "new_pivot": p1, "assigned_field": f, "layout": lay}
+    def flatv(x): return [float(v) for v in ak.to_numpy(ak.flatten(x, axis=None))]
+    for what, g, w in (("radius", flatv(ha.radius), flatv(fresh.radius)), ("momentum.pt", flatv(ha.momentum.pt), flatv(fresh.momentum.pt)),
+                       ("position.x", flatv(ha.position.x), flatv(fresh.position.x)), ("charge", flatv(ha.charge), flatv(fresh.charge))):
+        if any(abs(a - b) > 1e-12 * (1 + abs(b)) for a, b in zip(g, w)):
+            report(f"{prefix}:history:stale-after-field-assignment:{what}", f"after h[{f!r}] = ... on a used helix array, {what} = {g}; a new array holding the same numbers gives {w}", inp); return
+    a, b = ha.change_pivot(*p1), fresh.change_pivot(*p1)
+    for ff in FIELDS5:
+        if any(abs(x - y) > 1e-12 * (1 + abs(y)) for x, y in zip(flatv(a[ff]), flatv(b[ff]))):
+            report(f"{prefix}:history:stale-after-field-assignment:change_pivot", f"after h[{f!r}] = ... on a used helix array, change_pivot gives {ff} = {flatv(a[ff])}; a new array holding the same numbers gives {flatv(b[ff])}", inp); return
+    if E is not None and not np.allclose(np.array(flatv(a.error)), np.array(flatv(b.error)), rtol=1e-12, atol=0):
+        report(f"{prefix}:history:stale-after-field-assignment:error", f"after h[{f!r}] = ... on a used helix array, the propagated error matrices differ from those of a new array holding the same numbers", inp); return
+    if flatv(ha.isclose(fresh)) != flatv(fresh.isclose(fresh)):
+        report(f"{prefix}:history:stale-after-field-assignment:isclose", f"after h[{f!r}] = ... on a used helix array, isclose against a new array holding the same numbers says {ak.to_list(ha.isclose(fresh))}", inp)
+
 def _large_array(prefix):
     """more tracks than any internal block size (70 001, not a multiple of a power of two): every track, the last ones included,
     equals the object move; error matrices too"""
@@ -220,9 +253,19 @@ def _large_array(prefix):
             if bad.size:
                 report(f"{prefix}:array-differs-from-object:large-array:{f}", f"track {int(sel[bad[0]])} of {n}: {f} = {flat[f][sel[bad[0]]]!r}, object {w!r} ({bad.size} tracks differ)", {"n_tracks": n, "track": int(sel[bad[0]])}); break
         d = np.abs(eo[sel] - np.asarray(refs[j].error)[None, :, :]).reshape(len(sel), -1).max(axis=1)
+        d = np.where(np.isfinite(d), d, np.inf)
         bad = np.nonzero(d > 1e-9 * (1 + np.abs(np.asarray(refs[j].error)).max()))[0]
         if bad.size:
             report(f"{prefix}:error-differs-from-object:large-array", f"track {int(sel[bad[0]])} of {n}: propagated error matrix differs from the object's ({bad.size} tracks)", {"n_tracks": n, "track": int(sel[bad[0]])})
+    # a move to the own pivot, and there and back, over ALL tracks (block boundaries included)
+    same = ak.to_numpy(ha.change_pivot(*p0).error); back = ak.to_numpy(out.change_pivot(*p0).error); e_in = np.array(E7)[idx]; n_eval += 2 * n
+    emax = np.abs(e_in).reshape(n, -1).max(axis=1); emid = np.abs(eo).reshape(n, -1).max(axis=1)
+    for lab, got, tol in (("identity", same, 1e-12 * (1 + emax)), ("there-and-back", back, 1e-9 * (1 + emax) + 1e-12 * np.where(np.isfinite(emid), emid, 0.0))):
+        d = np.abs(got - e_in).reshape(n, -1).max(axis=1); d = np.where(np.isfinite(d), d, np.inf)
+        canon = np.array([canonical(b) for b in base])[idx]     # a far-side helix is re-written in canonical form by any move (C11 is stated for canonical ones)
+        bad = np.nonzero((d > tol) & canon)[0]
+        if bad.size:
+            report(f"{prefix}:{lab}-error:large-array", f"track {int(bad[0])} of {n}: error matrix after the {lab} move differs from the original by {d[bad[0]]!r} ({bad.size} tracks)", {"n_tracks": n, "track": int(bad[0])})
 
 def _reordered_views(prefix):
     """helix arrays (with error matrices) whose tracks / events are re-ordered or selected by an index, inside events, across events,
@@ -335,6 +378,7 @@ reuse_history = _guarded(_reuse_history, "history")
 object_mutation = _guarded(_object_mutation, "history-object")
 reordered_views = _guarded(_reordered_views, "reordered")
 large_array = _guarded(_large_array, "large-array")
+array_field_assignment = _guarded(_array_field_assignment, "history-array-field")
 
 # ------------------------------------------------------------------------------------------------ validate
 def do_validate():
@@ -381,7 +425,7 @@ def do_c06():
     for i in range(n + len(CORNERS)):
         par, p0, p1 = corner(i) or (gen_helix(), gen_pivot(), gen_pivot())
         if i >= len(CORNERS) and i % 8 == 0: p1 = near_centre_pivot(par, p0)
-        if i % 12 == 0: object_mutation("C06")
+        if i % 12 == 0: object_mutation("C06"); array_field_assignment("C06")
         if i % 25 == 0: int_columns_move("C06"); reuse_history("C06"); named_pivot_forms("C06")
         c = centre(par, p0)
         if math.hypot(c[0] - p1[0], c[1] - p1[1]) < 1e-3: continue
@@ -461,7 +505,8 @@ def do_c11():
         seq = [cc[2]] if cc else [gen_pivot() for _ in range(rng.randrange(1, 5))]
         if not cc and i % 8 == 0: seq[rng.randrange(len(seq))] = near_centre_pivot(par, p0)
         if i % 10 == 0: int_columns_move("C11")
-        if i % 12 == 0: reuse_history("C11"); object_mutation("C11")
+        if i % 12 == 0: reuse_history("C11"); object_mutation("C11"); array_field_assignment("C11")
+        if i == 0: large_array("C11")
         if i % 20 == 0: named_pivot_forms("C11")
         if i % 40 == 0: reordered_views("C11")
         c = centre(par, p0)
@@ -731,7 +776,7 @@ def do_c13():
                 if any(abs(g - w) > 1e-9 * (1 + abs(w)) for g, w in zip(got, want)):
                     report(f"C13:container-forms-differ:int-columns:{pv_kind}-pivot", f"helix_awk with integer-typed columns and pivot {fp}: position/pivot {got} vs object {want}", {"par": ipar, "pivot": fp})
         if i % 10 == 0: call_forms(par, p0, gen_error(), gen_pivot())
-        if i % 12 == 0: object_mutation("C13")
+        if i % 12 == 0: object_mutation("C13"); array_field_assignment("C13")
         if i % 10 == 5: call_forms(par, rng.choice([[0.0, 0.0, rng.uniform(-20, 20)], [rng.uniform(-5, 5), 0.0, 0.0], [0.0, rng.uniform(-5, 5), 0.0]]), gen_error(), gen_pivot())
         # three ways of passing parameters
         h1 = p3.helix_obj(dr, phi0, kappa, dz, tanl, pivot=tuple(p0)); h2 = p3.helix_obj(dr=dr, phi0=phi0, kappa=kappa, dz=dz, tanl=tanl, pivot=tuple(p0))
@@ -946,7 +991,7 @@ def do_c07():
         if i % 2 == 0: isclose_boundary("C07")
         if i % 4 == 0: reordered_views("C07")
         if i == 0: large_array("C07")
-        if i % 5 == 0: reuse_history("C07")
+        if i % 5 == 0: reuse_history("C07"); array_field_assignment("C07")
         if i % 7 == 0: named_pivot_forms("C07")
         # permutation equivariance on the flat layout
         perm = list(range(m)); rng.shuffle(perm)
@@ -974,7 +1019,7 @@ def do_c12():
             # radial moves (turning angle 0 up to rounding): onto the helix' own reference point, and along the line pivot - centre
             t = rng.choice([1.0, rng.uniform(-3, 3)]); bump("pivot:radial")
             p1 = [p0[0] + t * par[0] * math.cos(par[1]) + (0 if t == 1.0 else t * math.cos(par[1])), p0[1] + t * par[0] * math.sin(par[1]) + (0 if t == 1.0 else t * math.sin(par[1])), p0[2] + rng.uniform(-2, 2)]
-        if i % 10 == 0: reuse_history("C12"); object_mutation("C12")
+        if i % 10 == 0: reuse_history("C12"); object_mutation("C12"); array_field_assignment("C12")
         if i == 0: large_array("C12")
         if i % 25 == 0: reordered_views("C12")
         c = centre(par, p0)
@@ -1008,6 +1053,23 @@ def do_c12():
             w = np.linalg.eigvalsh((got + got.T) / 2)
             if w.min() < -1e-9 * max(1e-30, abs(w).max()):
                 report(f"C12:not-psd:{fe}", f"propagated error matrix has eigenvalue {w.min():.3g}", {"par": par, "pivot": p0, "new_pivot": p1})
+        if i % 7 == 3:
+            # J E J^T is linear in E: covariances in small (or large) units are propagated like any other (no absolute thresholds)
+            sfac = rng.choice([1e-14, 1e-17, 1e-20, 1e-25, 1e10]); bump(f"error:scaled:{sfac:g}")
+            Ef = E.astype(np.float64)
+            for fe in ("obj", "arr"):
+                if fe == "obj": g1 = np.asarray(obj(par, p0, Ef).change_pivot(*p1).error); gs = np.asarray(obj(par, p0, Ef * sfac).change_pivot(*p1).error)
+                else:
+                    g1 = ak.to_numpy(awk([par, par], [p0, p0], [Ef, Ef]).change_pivot(*p1).error[1]); gs = ak.to_numpy(awk([par, par], [p0, p0], [Ef, Ef * sfac]).change_pivot(*p1).error[1])
+                n_eval += 2
+                if not np.all(np.abs(gs - sfac * g1) <= 1e-9 * sfac * np.abs(g1).max()):
+                    report(f"C12:not-linear-in-E:{fe}", f"the matrix propagated from E * {sfac:g} is not {sfac:g} times the matrix propagated from E (max deviation "
+                           f"{np.abs(gs - sfac * g1).max() / (sfac * np.abs(g1).max() + 1e-300):.3g} of the largest entry): J E J^T is linear in E",
+                           {"par": par, "pivot": p0, "new_pivot": p1, "error": Ef.tolist(), "scale": sfac})
+                if canonical(par):
+                    ss = np.asarray(obj(par, p0, Ef * sfac).change_pivot(*p0).error) if fe == "obj" else ak.to_numpy(awk([par], [p0], [Ef * sfac]).change_pivot(*p0).error[0])
+                    if not np.allclose(ss, Ef * sfac, rtol=1e-7, atol=(1e-15 + 1e-14 * (1 + abs(ALPHA / par[2])) * float(np.abs(Ef).max())) * sfac):
+                        report(f"C12:identity-move-changes-error:scaled:{fe}", f"move to the same pivot changed an error matrix given in units {sfac:g} times smaller", {"par": par, "pivot": p0, "scale": sfac})
         h0 = obj(par, p0); n_eval += 1
         if h0.change_pivot(*p1).error is not None:
             report("C12:error-appears", "helix without error matrix acquired one", {"par": par})
